@@ -201,6 +201,7 @@ class Program(object):
         self.stmts = stmts
         self.indent = indent       # string of blanks and/or tabs put before every docstring line
         self.header = header or []
+        self.preset = None         # {name: value}: globals of the MODULE the doctest belongs to (None: a bare docstring)
 
     @property
     def program_lines(self):
@@ -252,11 +253,16 @@ class Program(object):
         return '\n'.join(doc) + '\n', line_of, stmt_first
 
     def describe(self):
-        return {'indent': self.indent, 'header': self.header, 'stmts': [s.describe() for s in self.stmts]}
+        d = {'indent': self.indent, 'header': self.header, 'stmts': [s.describe() for s in self.stmts]}
+        if self.preset:
+            d['preset'] = self.preset
+        return d
 
     @staticmethod
     def from_desc(d):
-        return Program([Stmt.from_desc(sd) for sd in d['stmts']], d['indent'], d['header'])
+        p = Program([Stmt.from_desc(sd) for sd in d['stmts']], d['indent'], d['header'])
+        p.preset = d.get('preset')
+        return p
 
     def column(self, s):
         """column of the prompts of statement s"""
@@ -264,11 +270,14 @@ class Program(object):
 
 
 # ------------------------------------------------------------------------------- reference execution
-def reference(source, uses_await=False):
-    """plain execution of the de-prompted program: (TRACE, stdout, bindings, error-or-None)"""
+def reference(source, uses_await=False, preset=None):
+    """plain execution of the de-prompted program: (TRACE, stdout, bindings, error-or-None); `preset`: names that exist
+    before the program starts (the globals of the module a doctest belongs to): the program may rebind them"""
     ns, T = gd.make_namespace({})
     ns['__file__'] = '<ref>'
     injected = set(ns)
+    if preset:
+        ns.update(preset)
     buf = io.StringIO()
     err = None
     with warnings.catch_warnings():
@@ -293,6 +302,8 @@ def reference_stmtwise(prog):
     ns, T = gd.make_namespace({})
     ns['__file__'] = '<ref>'
     injected = set(ns)
+    if getattr(prog, 'preset', None):
+        ns.update(prog.preset)
     outs = []
     err = None
     stopped = False
@@ -325,7 +336,7 @@ def reference_prog(prog):
     """(TRACE, stdout, bindings, error) of the plain program"""
     if prog.has_raise():
         return reference_stmtwise(prog)[:4]
-    return reference(prog.source, prog.uses_await())
+    return reference(prog.source, prog.uses_await(), getattr(prog, 'preset', None))
 
 
 def canon_bindings(ns, injected=()):
@@ -440,6 +451,15 @@ def gen_program(rng, max_len=7, allow_await=True, allow_star=False, allow_direct
     prog = Program(stmts, indent, header)
     if wants:
         place_wants(prog, rng)
+    if rng.random() < 0.25 and not prog.has_raise():
+        # the doctest belongs to a MODULE whose globals already hold every name the program binds (and two it does not):
+        # rebinding / shadowing a module-level name must behave as in the plain program, in every later part as well
+        try:
+            bound = reference(prog.source, prog.uses_await())[2]
+        except Exception:
+            bound = {}
+        prog.preset = dict(('%s' % k, 'module-level %s' % k) for k in bound)
+        prog.preset.update({'modonly_a': 1, 'modonly_b': 'two'})
     return prog
 
 
